@@ -224,6 +224,15 @@ fn cfg_for(rng: &mut Rng) -> GenCfg {
     c.w_eq = 5;
     c.w_arith = 4;
     c.max_loop = 40;
+    // depth is all that is observed here, so constructs outside the reference evaluator's model are welcome
+    c.w_partial = 4;
+    if rng.chance(1, 2) {
+        c.w_range = 3;
+        c.w_concat = 3;
+        c.w_symlist = 2;
+        c.w_typeof = 2;
+        c.w_cast = 2;
+    }
     c
 }
 
@@ -254,7 +263,16 @@ impl Campaign for C06 {
         let cfg = cfg_for(rng);
         let keys = cfg.keys.clone();
         let mut g = Gen::new(rng, cfg);
-        let prog = if g.rng.chance(1, 6) { g.counted_loop(12) } else { g.program() };
+        let mut loop_input = None;
+        let prog = match g.rng.below(12) {
+            0 | 1 => g.counted_loop(12),
+            2 => {
+                let (p, input) = g.toplevel_loop(12);
+                loop_input = Some(input);
+                p
+            }
+            _ => g.program(),
+        };
         let src = prog.top();
         let mut idents: Vec<String> = vec![];
         for i in g.used_idents.iter() {
@@ -262,7 +280,10 @@ impl Campaign for C06 {
                 idents.push(i.clone());
             }
         }
-        let input = gen_input(rng, &keys);
+        let input = match loop_input {
+            Some(i) => i,
+            None => gen_input(rng, &keys),
+        };
         let k = idents.len();
         let masks: Vec<u64> = if k <= 6 {
             (0..(1u64 << k)).collect()
